@@ -241,7 +241,8 @@ def failall_oracle(kf, ka):
     v1 = [not (a and ka <= i) for i in range(n)]
     m0 = not (f or a)
     m1 = not a
-    return (m0, m1, v1, m0 and m1, m0 and m1)
+    # a further run on the same instance in which nothing fails starts valid again
+    return (m0, m1, v1, m0 and m1, m0 and m1, True, True, [True] * n)
 
 
 @ob(
@@ -251,13 +252,14 @@ def failall_oracle(kf, ka):
     post="_ == failall_oracle(kf, ka)",
     bound="breadth-first run of a group of 2 over a 5-record file; member m0 executes fail() on symbolic line kf and fail_all() on "
     "symbolic line ka (before, on, or after kf; 'never' included); observed: both members' final verdicts, m1's valid() on every "
-    "line, results_manager.is_valid(group) and the run manifest's all_valid",
+    "line, results_manager.is_valid(group) and the run manifest's all_valid; then a second run on the same instance in which "
+    "nothing fails: both members valid on every line",
     outside="serial methods (fail_all() there only concerns the calling csvpath); groups of more than 2",
     encodes=ENC + ["csvpath/matching/functions/validity/fail.py:FailAll._decide_match", "csvpath/csvpaths.py:CsvPaths.fail_all/next_by_line (_fail_all)",
                    "csvpath/managers/results/results_manager.py:ResultsManager.is_valid", "csvpath/managers/results/results_registrar.py:ResultsRegistrar.all_valid"],
     tiers={"quick": {"timeout": 1800, "shards": product(kf=[-1, 1, 3])}, "thorough": {"timeout": 5000}},
 )
-def failall_run(kf: int, ka: int) -> Tuple[bool, bool, List[bool], bool, bool]:
+def failall_run(kf: int, ka: int) -> Tuple[bool, bool, List[bool], bool, bool, bool, bool, List[bool]]:
     import os
 
     kit.HOLD.update(symkf=kf, symka=ka)
@@ -269,5 +271,10 @@ def failall_run(kf: int, ka: int) -> Tuple[bool, bool, List[bool], bool, bool]:
     with NoTracing():
         run = os.path.join("archive/g", sorted(os.listdir("archive/g"))[0])
         man = kitpaths.read_json(os.path.join(run, "manifest.json"))
+    kit.HOLD.update(symkf=-1, symka=-1)
+    cs.fast_forward_by_line(filename="data", pathsname="g")
+    rs2 = cs.results_manager.get_named_results("g")
+    again = (rs2[0].csvpath.is_valid, rs2[1].csvpath.is_valid, list(rs2[1].csvpath.variables.get("v", [])))
+    with NoTracing():
         kitpaths.cleanup(root)
-    return out + (man.get("all_valid"),)
+    return out + (man.get("all_valid"),) + again
